@@ -251,6 +251,12 @@ def taper_some(draw, objs, lam, prob=0.25):
                 tmax = lam / 10.0
             if tmax >= L / o['n'] * 1.05:
                 o['tmax'] = r6(tmax * 0.999999)
+            else:
+                # no admissible maximum <= lambda/10: leave the wire untapered (an unlimited taper would
+                # produce segments far longer than lambda/10)
+                o['taper'] = 0
+                o['tmin'] = None
+                continue
             any_t = True
     return any_t
 
